@@ -83,7 +83,7 @@ def run(ctx):
                 flow = sd.FakeFlow(dims, seed=ctx.rng.randrange(1000))
                 akw = {}
                 if opt.get("bounds"):
-                    akw["prior_bounds"] = {f"x_{i}": (-5.0, 5.0) for i in range(dims)}
+                    akw["prior_bounds"] = tgt.bounds_dict()
                 if opt.get("periodic"):
                     akw["periodic_parameters"] = ["x_0"]
                 if pre == "flow":
@@ -98,7 +98,8 @@ def run(ctx):
                     continue
                 T = s.preconditioning_transform
                 rngn = np.random.default_rng(ctx.rng.randrange(1 << 30))
-                x0 = rngn.uniform(-4.5, 4.5, size=(40, dims))
+                blo, bhi = tgt.box_bounds()
+                x0 = blo + rngn.uniform(0.05, 0.95, size=(40, dims)) * (bhi - blo)
                 try:
                     z0 = np.asarray(nsutil.to_list(s.fit_preconditioning_transform(x0)), float).reshape(-1, dims)
                 except Exception as e:
@@ -114,7 +115,7 @@ def run(ctx):
                 # before the kernel's log-density is evaluated)
                 try:
                     x_pre = np.asarray(nsutil.to_list(T.inverse(zin)[0]), float).reshape(-1, dims)
-                    if (ctx.rng.random() < 0.6 or nsname == "jax") and np.all(np.isfinite(x_pre[1])) and np.all(np.abs(x_pre[1]) < 4.9):
+                    if (ctx.rng.random() < 0.6 or nsname == "jax") and np.all(np.isfinite(x_pre[1])) and np.all((x_pre[1] > blo) & (x_pre[1] < bhi)):
                         tgt.nan_above = float(x_pre[1, 0]) - 1e-9
                 except Exception:
                     pass
@@ -159,7 +160,7 @@ def run(ctx):
                 # finite-difference cross-check of the reported log-Jacobian (numpy transforms, interior points)
                 if pre != "flow" and T.xp.__name__.endswith("numpy"):
                     for i in range(1, min(n, 4)):
-                        if np.all(np.abs(xi[i]) < 4.9) and np.isfinite(lji[i]):
+                        if np.all((xi[i] > blo + 0.1) & (xi[i] < bhi - 0.1)) and np.isfinite(lji[i]):
                             fd = fd_logdet(T.inverse, z[i])
                             if abs(fd - lji[i]) > 1e-3 * (1 + abs(fd)):
                                 ctx.violation(f"log-jacobian:{pre}:{json.dumps(pkw, sort_keys=True)}", f"reported log|det dx/dz| {lji[i]} vs finite differences {fd}",
